@@ -1,6 +1,8 @@
 (* Channels "flags" and "jprops": the properties file (C12). *)
 open Model
 type string = Stdlib.String.t
+let max = Stdlib.max
+let min = Stdlib.min
 open Conv
 
 let describe (r : ((n * n) * flags) option) : string =
